@@ -123,6 +123,8 @@ type env struct {
 	shared     []*spec.Schema
 	longLived  []*validate.SchemaValidator
 	enumValues []interface{}
+	// one options slice with spare capacity, shared by every AgainstSchema call of every goroutine
+	sharedOpts []validate.Option
 }
 
 func exec(e *env, op Op) obs.Outcome {
@@ -130,7 +132,7 @@ func exec(e *env, op Op) obs.Outcome {
 	case "against":
 		data, _ := obs.DecodeStd(op.Data)
 		var out obs.Outcome
-		if msg, st := obs.Guard(func() { out = obs.FromError(validate.AgainstSchema(e.shared[op.S], data, registry)) }); msg != "" {
+		if msg, st := obs.Guard(func() { out = obs.FromError(validate.AgainstSchema(e.shared[op.S], data, registry, e.sharedOpts...)) }); msg != "" {
 			return obs.Outcome{Panic: msg, Stack: st}
 		}
 		return out
@@ -179,7 +181,7 @@ func check(c Case) (out ev.Outcome) {
 	defer validate.SetContinueOnErrors(false)
 	hook.SetRedeemHook(nil)
 	hook.ResetPools()
-	e := &env{enumValues: []interface{}{"a", float64(1), nil, true, "ab"}}
+	e := &env{enumValues: []interface{}{"a", float64(1), nil, true, "ab"}, sharedOpts: append(make([]validate.Option, 0, 4), validate.EnableObjectArrayTypeCheck(false))}
 	for _, txt := range c.Schemas {
 		s, err := obs.ParseSchema(txt)
 		if err != nil {
